@@ -302,3 +302,65 @@ class Backup(_Schema):
                 "V.shares_secret_values": r["x"] is self._x and r["lst"][0] is self._l[0],
                 "V.copies_containers": r["lst"] is not self._l and r["lst"] == self._l,
                 "F.context_unchanged": ctx.vals["x"] is self._x and ctx.vals["lst"] is self._l and ctx.vals["k"] == 7}
+
+
+@register
+class SchemaElifGuards(_Schema):
+    """_if(c1) .. _elif(lambda: a < b) .. _endif with bodies that assign nothing (assertion-only branches: the one
+    block shape that completes on the pinned tree).  What each body runs under: the first under c1, the second under
+    (not c1) AND (a < b) -- and the elif condition itself is evaluated OUTSIDE the first branch's guard, so its value
+    is the plain comparison whatever c1 is."""
+    name = "pysnark.branching:_if#elif_guards"
+    vprops = ("C09", "C07", "C08")
+    fprops = ("C09", "C08", "C07")
+
+    def configs(self, tier):
+        return [dict(cond="secret_lc", bits=3)]
+
+    def setup(self, c, cfg):
+        apply_mode(c, "plain", bitlength=cfg["bits"])
+        br = self.br(c)
+        rt = c.rt
+        a, b = c.operand("a"), c.operand("b")
+        c1 = _cond(c, cfg["cond"], "c1")
+        self._ops = (a, b, c1)
+        self._seen = []
+        self._condval = []
+
+        def probe(tag):
+            self._seen.append((tag, rt.guard, rt.ignore_errors()))
+
+        def lt():
+            r = a < b
+            self._condval.append(r)
+            return r.lc
+        return c.client("""
+def prog():
+    _ = BranchingValues()
+    if _if(c1):
+        probe("if")
+    if _elif(lt):
+        probe("elif")
+    _endif()
+    return _
+""", c1=c1, probe=probe, lt=lt, **API(br)), (), {}
+
+    def pre(self, c):
+        a, b, c1 = self._ops
+        n = c.bitlength
+        return [in_range(c.v(b) - c.v(a) - 1, n), (1 << (n + 1)) < c.p]
+
+    def post(self, c, r, *a_):
+        a, b, c1 = self._ops
+        d = {"V.both_bodies_ran": [t for t, g, ie_ in self._seen] == ["if", "elif"] and len(self._condval) == 1,
+             "F.stack_empty": len(r.stack) == 0, "F.guard_state_restored": self.state_clean(c)}
+        if not d["V.both_bodies_ran"]:
+            return d
+        lt = If(c.v(a) < c.v(b), 1, 0)
+        (_, g1, ie1), (_, g2, ie2) = self._seen
+        d["V.elif_condition_is_the_plain_comparison"] = Eq(c.v(self._condval[0]), lt)
+        d["V.first_body_guard"] = g1 is not None and Eq(c.v(g1), c.v(c1))
+        d["V.second_body_guard"] = g2 is not None and Eq(c.v(g2), If(And(c.v(c1) == 0, lt == 1), 1, 0))
+        d["V.errors_off_iff_dead[if]"] = formula(ie1) == (c.v(c1) == 0)
+        d["V.errors_off_iff_dead[elif]"] = formula(ie2) == Not(And(c.v(c1) == 0, lt == 1))
+        return d
